@@ -198,38 +198,72 @@ def infer_state(repo: Repo, chk: Check) -> None:
         # ---- setup
         elif is_case(s, "isinstance($o, accfg.SetupOp)", "isinstance($o, SetupOp)"):
             n_setup += 1
-            no_in = bool(has_fact(s, ["$o.in_state is None", "not $o.in_state"], {"o": owner}))
-            with_in = bool(has_fact(s, ["$o.in_state is not None", "$o.in_state"], {"o": owner}))
-            ex = s.expand(v) if v is not None else None
             own = lambda x: depends_on(x, "$o.iter_params()", "$o.param_names", "$o.values", binds={"o": owner})
             rec = lambda x: depends_on(x, "infer_state_of($o.in_state)", binds={"o": owner})
-            if no_in:
-                chk.result(
-                    ex is not None and own(ex) and not rec(ex),
-                    "C07.setup-chain",
-                    f"{f.key}:case SetupOp(in_state=None)",
-                    s.where(),
-                    "a setup without in_state yields exactly its own parameters",
-                )
-            elif with_in:
-                assert ex is not None
-                ok = False
-                for _, m in subexprs(ex, "__mut_update__($a, $b)"):
-                    ok = ok or (rec(m["a"]) and not own(m["a"]) and own(m["b"]))
-                for _, m in subexprs(ex, "$a | $b"):
-                    ok = ok or (rec(m["a"]) and not own(m["a"]) and own(m["b"]))
-                if isinstance(ex, ast.Dict) and len(ex.keys) == 2 and all(k is None for k in ex.keys):
-                    ok = ok or (rec(ex.values[0]) and own(ex.values[1]))
-                chk.result(
-                    ok,
-                    "C07.setup-chain",
-                    f"{f.key}:case SetupOp(in_state)",
-                    s.where(),
-                    "state after a setup = inferred in_state updated by the setup's own parameters",
-                    f"state after a setup must be the inferred in_state *updated by* the own parameters; found {ast.unparse(ex)[:200]}",
-                )
-            else:
+            NONE_T = [T("$o.in_state is None"), T("not $o.in_state")]
+            SOME_T = [T("$o.in_state is not None"), T("$o.in_state")]
+
+            def split_ifexp(x: ast.expr) -> list[tuple[str, ast.expr]] | None:
+                """the value under `in_state is None` and under `in_state is not None`, when a conditional expression decides"""
+                hits = [n for n in ast.walk(x) if isinstance(n, ast.IfExp) and norm.any_match(NONE_T + SOME_T, n.test, {"o": owner}) is not None]
+                if not hits:
+                    return None
+                out_: list[tuple[str, ast.expr]] = []
+                for kind in ("none", "some"):
+                    class Pick(ast.NodeTransformer):
+                        def visit_IfExp(self, node: ast.IfExp) -> ast.AST:
+                            self.generic_visit(node)
+                            if norm.any_match(NONE_T, node.test, {"o": owner}) is not None:
+                                return node.body if kind == "none" else node.orelse
+                            if norm.any_match(SOME_T, node.test, {"o": owner}) is not None:
+                                return node.orelse if kind == "none" else node.body
+                            return node
+                    import copy as _copy
+                    out_.append((kind, ast.fix_missing_locations(Pick().visit(_copy.deepcopy(x)))))
+                return out_
+
+            cases: list[tuple[str, ast.expr]] = []
+            if v is not None:
+                from sa.flow import expand as _expand
+                for alt in s.state.alts:
+                    ex_a = _expand(v, alt.env)
+                    atoms_ = [f_.expr for f_ in alt.facts.values() if f_.kind == "atom"] + [f_.expr for f_ in s.extra if f_.kind == "atom"]
+                    if any(norm.any_match(NONE_T, a, {"o": owner}) is not None for a in atoms_):
+                        cases.append(("none", ex_a))
+                    elif any(norm.any_match(SOME_T, a, {"o": owner}) is not None for a in atoms_):
+                        cases.append(("some", ex_a))
+                    else:
+                        sp = split_ifexp(ex_a)
+                        if sp is None:
+                            raise AnalysisError(f"{s.where()}: SetupOp case without a decidable in_state condition")
+                        cases.extend(sp)
+            if not cases:
                 raise AnalysisError(f"{s.where()}: SetupOp case without a decidable in_state condition")
+            for kind, ex in cases:
+                if kind == "none":
+                    chk.result(
+                        own(ex) and not rec(ex),
+                        "C07.setup-chain",
+                        f"{f.key}:case SetupOp(in_state=None)",
+                        s.where(),
+                        "a setup without in_state yields exactly its own parameters",
+                    )
+                else:
+                    ok = False
+                    for _, m in subexprs(ex, "__mut_update__($a, $b)"):
+                        ok = ok or (rec(m["a"]) and not own(m["a"]) and own(m["b"]))
+                    for _, m in subexprs(ex, "$a | $b"):
+                        ok = ok or (rec(m["a"]) and not own(m["a"]) and own(m["b"]))
+                    if isinstance(ex, ast.Dict) and len(ex.keys) == 2 and all(k is None for k in ex.keys):
+                        ok = ok or (rec(ex.values[0]) and own(ex.values[1]))
+                    chk.result(
+                        ok,
+                        "C07.setup-chain",
+                        f"{f.key}:case SetupOp(in_state)",
+                        s.where(),
+                        "state after a setup = inferred in_state updated by the setup's own parameters",
+                        f"state after a setup must be the inferred in_state *updated by* the own parameters; found {ast.unparse(ex)[:200]}",
+                    )
     for n, name in ((n_head, "loop-head (Block/scf.ForOp)"), (n_res, "scf.ForOp result"), (n_if, "scf.IfOp"), (n_setup, "SetupOp")):
         if n == 0:
             raise AnalysisError(f"{f.where}: no return found for case {name}")
@@ -258,7 +292,14 @@ def intersection(repo: Repo, chk: Check) -> None:
                     for at in norm.atoms(c, True):
                         if isinstance(at, ast.Compare) and len(at.ops) == 1 and isinstance(at.ops[0], (ast.Eq, ast.Is)):
                             l, r = norm.free_names(at.left), norm.free_names(at.comparators[0])
-                            if (over in l and other in r) or (over in r and other in l):
+                            # a value of the iterated side: mentions it, or is a value variable bound by iterating its items()/values()
+                            vals = {over}
+                            if norm.any_match(["$d.items()"], gen.iter, {"d": over}) is not None and isinstance(gen.target, ast.Tuple) and len(gen.target.elts) == 2 \
+                                    and isinstance(gen.target.elts[1], ast.Name):
+                                vals.add(gen.target.elts[1].id)
+                            if norm.any_match(["$d.values()"], gen.iter, {"d": over}) is not None and isinstance(gen.target, ast.Name):
+                                vals.add(gen.target.id)
+                            if (l & vals and other in r and other not in l) or (r & vals and other in l and other not in r):
                                 ok = True
         chk.result(
             ok,
@@ -271,6 +312,116 @@ def intersection(repo: Repo, chk: Check) -> None:
 
 
 # --------------------------------------------------------------------------- has_accfg_effects
+
+def _domain_chain(var: str, binders: dict[str, ast.expr], root: str) -> bool:
+    """`var` ranges over the ops nested in `root`: regions -> blocks -> ops, regions -> walk(), or root.walk()"""
+    steps: list[str] = []
+    cur: ast.expr | None = binders.get(var)
+    for _ in range(6):
+        if cur is None:
+            return False
+        # peel list()/tuple()/iter() wrappers
+        while isinstance(cur, ast.Call) and isinstance(cur.func, ast.Name) and cur.func.id in ("list", "tuple", "iter") and len(cur.args) == 1:
+            cur = cur.args[0]
+        if isinstance(cur, ast.Call) and isinstance(cur.func, ast.Attribute) and cur.func.attr == "walk" and not cur.args and not cur.keywords:
+            steps.append("walk()")
+            base = cur.func.value
+        elif isinstance(cur, ast.Attribute):
+            steps.append(cur.attr)
+            base = cur.value
+        else:
+            return False
+        if not isinstance(base, ast.Name):
+            return False
+        if base.id == root:
+            steps.reverse()
+            return steps in (["regions", "blocks", "ops"], ["regions", "walk()"], ["walk()"], ["regions", "ops"])
+        cur = binders.get(base.id)
+    return False
+
+
+def _nested_scan(repo: Repo, f: Func, fl: Flow, root: str, target: str, depth: int) -> Site | None:
+    """a return site of `f` that yields a true value exactly when `target(x)` holds for some op x nested in `root`"""
+    parents: dict[int, ast.AST] = {}
+    for n in ast.walk(f.node):
+        for ch in ast.iter_child_nodes(n):
+            parents[id(ch)] = n
+
+    def loop_binders(node: ast.AST) -> dict[str, ast.expr]:
+        out: dict[str, ast.expr] = {}
+        cur = parents.get(id(node))
+        while cur is not None:
+            if isinstance(cur, ast.For) and isinstance(cur.target, ast.Name):
+                out.setdefault(cur.target.id, cur.iter)
+            cur = parents.get(id(cur))
+        return out
+
+    def helper_ok(call: ast.Call) -> bool:
+        # a repo helper (other than the target) that performs the nested scan on its argument
+        if depth >= 1 or not isinstance(call.func, ast.Name) or call.func.id == target or len(call.args) != 1 or call.keywords:
+            return False
+        if not (isinstance(call.args[0], ast.Name) and call.args[0].id == root):
+            return False
+        h = repo.try_func(f.module.relpath, call.func.id)
+        if h is None or not h.params:
+            return False
+        return _nested_scan(repo, h, Flow(h, repo, inline_calls=0), h.params[0], target, depth + 1) is not None
+
+    def positive_any(e: ast.expr, outer: dict[str, ast.expr]) -> bool:
+        """e is (or positively contains, under or/any) `any(target(x) for x in <nested ops of root>)` or a helper doing so"""
+        def positive(x: ast.expr) -> list[ast.expr]:
+            if isinstance(x, ast.BoolOp) and isinstance(x.op, ast.Or):
+                return [y for v in x.values for y in positive(v)]
+            if isinstance(x, ast.IfExp):
+                return positive(x.body) + positive(x.orelse)
+            if isinstance(x, ast.Call) and isinstance(x.func, ast.Name) and x.func.id == "bool" and len(x.args) == 1:
+                return positive(x.args[0])
+            return [x]
+
+        for sub in positive(e):
+            if isinstance(sub, ast.Call) and helper_ok(sub):
+                return True
+            if isinstance(sub, ast.Call) and isinstance(sub.func, ast.Name) and sub.func.id == "any" and len(sub.args) == 1 and isinstance(
+                    sub.args[0], (ast.GeneratorExp, ast.ListComp)):
+                comp = sub.args[0]
+                binders = dict(outer)
+                for gen in comp.generators:
+                    if isinstance(gen.target, ast.Name):
+                        binders[gen.target.id] = gen.iter
+                    if gen.ifs:
+                        binders.clear()  # a filtered scan does not cover every op
+                for c in ast.walk(comp.elt):
+                    if isinstance(c, ast.Call) and isinstance(c.func, ast.Name) and c.func.id == target and len(c.args) == 1 \
+                            and isinstance(c.args[0], ast.Name) and _domain_chain(c.args[0].id, binders, root):
+                        # the call must be the element itself or an `or`-operand of it
+                        el = comp.elt
+                        if c is el or (isinstance(el, ast.BoolOp) and isinstance(el.op, ast.Or) and any(c is v for v in el.values)):
+                            return True
+        return False
+
+    for s in [x for x in fl.stmts(ast.Return) if x.reachable]:
+        v = s.node.value
+        const = v.value if isinstance(v, ast.Constant) else None
+        if isinstance(v, ast.Constant) and not const:
+            continue  # `return False` / `return None` says nothing
+        binders = {l.target.id: l.iter for l in reversed(s.loops) if isinstance(l, ast.For) and isinstance(l.target, ast.Name)}
+        binders = {**loop_binders(s.stmt), **binders}
+        # (a) the returned value is the scan
+        if v is not None and not isinstance(v, ast.Constant) and positive_any(s.expand(v), binders):
+            return s
+        # (b) a true return dominated by the scan / by `target(x)` inside loops over the nested ops
+        if const is True:
+            for fact in s.facts:
+                if fact.kind != "atom":
+                    continue
+                e = fact.expr
+                if isinstance(e, ast.Call) and isinstance(e.func, ast.Name) and e.func.id == target and len(e.args) == 1 \
+                        and isinstance(e.args[0], ast.Name) and _domain_chain(e.args[0].id, binders, root):
+                    return s
+                if positive_any(e, binders) and not norm.is_not(e):
+                    return s
+    return None
+
 def effects(repo: Repo, chk: Check) -> None:
     f, fl = flow_of(repo, chk, HELPERS, "has_accfg_effects")
     op = f.param(0)
@@ -344,26 +495,9 @@ def effects(repo: Repo, chk: Check) -> None:
         chk.result(ok and attr_src, "C07.effects-table", f"{f.key}:attr-polarity", s.where(),
                    "accfg.effects attribute: effects unless NONE",
                    f"the accfg.effects override returns {ast.unparse(v)[:120]}; expected `<attr>.data != EffectsEnum.NONE` on op.attributes['accfg.effects']")
-    # (3) recursion
-    rec_ok = None
-    for s in rets:
-        exprs = [f_.expr for f_ in s.facts if f_.kind == "atom"]
-        if s.node.value is not None:
-            exprs.append(s.expand(s.node.value))
-        for e in exprs:
-            for sub in ast.walk(e):
-                if isinstance(sub, (ast.GeneratorExp, ast.ListComp)):
-                    iters = [ast.unparse(g.iter) for g in sub.generators]
-                    calls = [c for c in ast.walk(sub.elt) if isinstance(c, ast.Call) and isinstance(c.func, ast.Name) and c.func.id == f.name]
-                    chain = (
-                        any(i == f"{op}.regions" for i in iters) and any(i.endswith(".blocks") for i in iters) and any(i.endswith(".ops") for i in iters)
-                    ) or any(i in (f"{op}.walk()",) for i in iters) or (
-                        any(i == f"{op}.regions" for i in iters) and any(i.endswith(".walk()") or i.endswith(".ops") for i in iters)
-                    )
-                    if calls and chain:
-                        neg = isinstance(s.node.value, ast.Constant) and s.node.value.value is False
-                        if not neg:
-                            rec_ok = s
+    # (3) recursion: some return that is not `False` is reached exactly when the function holds for an op drawn from
+    #     every op of every block of every region of the argument (comprehension, explicit loops, or a helper doing either)
+    rec_ok = _nested_scan(repo, f, fl, op, f.name, 0)
     chk.result(rec_ok is not None, "C07.effects-table", f"{f.key}:recursion", rec_ok.where() if rec_ok else f.where,
                "effects of nested ops are found by recursion over regions/blocks/ops",
                "has_accfg_effects no longer recurses over every op of every region: a call nested in control flow is missed")
@@ -425,22 +559,36 @@ def weave(repo: Repo, chk: Check) -> None:
         if isinstance(st, ast.For):
             # deletion loop driven by the results of weaving the op's regions
             tvars = {n.id for n in ast.walk(st.target) if isinstance(n, ast.Name)}
+            guards: list[ast.expr] = []  # conditions under which a key is deleted
             dels = False
-            for b in st.body:
-                if isinstance(b, ast.Delete):
-                    for t in b.targets:
-                        if isinstance(t, ast.Subscript) and isinstance(t.value, ast.Name) and t.value.id == state and norm.free_names(t.slice) & tvars:
-                            dels = True
-                if isinstance(b, ast.Expr) and norm.match(T("$s.pop($k)"), b.value, {"s": state}) is not None:
-                    dels = True
-                if isinstance(b, ast.Expr) and norm.match(T("$s.pop($k, $_)"), b.value, {"s": state}) is not None:
-                    dels = True
+
+            def scan(body: list[ast.stmt], conds: list[ast.expr]) -> None:
+                nonlocal dels
+                conds = list(conds)
+                for b in body:
+                    hit = False
+                    if isinstance(b, ast.Delete):
+                        for t in b.targets:
+                            if isinstance(t, ast.Subscript) and isinstance(t.value, ast.Name) and t.value.id == state and norm.free_names(t.slice) & tvars:
+                                hit = True
+                    if isinstance(b, ast.Expr) and norm.any_match(["$s.pop($k)", "$s.pop($k, $_)"], b.value, {"s": state}) is not None:
+                        hit = True
+                    if hit:
+                        dels = True
+                        guards.extend(conds)
+                    if isinstance(b, ast.If):
+                        scan(b.body, conds + [b.test])
+                        scan(b.orelse, conds + [norm.negate(b.test)])
+                        if b.body and isinstance(b.body[-1], (ast.Continue,)) and not b.orelse:
+                            conds.append(norm.negate(b.test))
+
+            scan(st.body, [])
             s = site_of.get(id(st))
             if dels and s is not None:
-                cone = fl.cone(st.iter, s)
-                rec = [c for c in ast.walk(cone) if isinstance(c, ast.Call) and isinstance(c.func, ast.Name) and c.func.id == f.name]
-                # the filter must keep exactly the keys missing from a branch result
-                if rec and depends_on(cone, "$_ not in $_"):
+                cones = [fl.cone(st.iter, s)] + [fl.cone(c, s) for c in guards]
+                rec = [c for cone in cones for c in ast.walk(cone) if isinstance(c, ast.Call) and isinstance(c.func, ast.Name) and c.func.id == f.name]
+                # the filter (in the iterated expression or around the deletion) must keep exactly the keys missing from a branch result
+                if rec and any(depends_on(cone, "$_ not in $_") for cone in cones):
                     return True
         return False
 
@@ -609,29 +757,114 @@ def if_delta(repo: Repo, chk: Check) -> None:
     f, fl = flow_of(repo, chk, HELPERS, "calc_if_state_delta")
     chk.rule(
         "C07.if-delta",
-        "calc_if_state_delta never reports an accelerator whose state was invalidated on one side "
-        "(a key of the old state enters the result only if both branch states hold a value for it)",
-        floor=1,
+        "calc_if_state_delta never reports an accelerator whose state was invalidated on one side: every component of a reported "
+        "value that is read from a branch state is known to exist there (a `pop(k, None)` result is tested against None, a "
+        "`state[k]` read is guarded by `k in state` or iterates that state)",
+        floor=2,
     )
-    res_stores = [s for s in fl.stmts(ast.Assign) if s.reachable and any(isinstance(t, ast.Subscript) for t in s.node.targets)]
+    branch_states = {f.param(1), f.param(2)}
+
+    def from_branch(e: ast.expr) -> tuple[str, ast.expr | None] | None:
+        """('pop'|'item', key) when e reads a branch state in a way that may not find the key"""
+        if isinstance(e, ast.Call) and isinstance(e.func, ast.Attribute) and e.func.attr in ("pop", "get") and isinstance(e.func.value, ast.Name) \
+                and e.func.value.id in branch_states:
+            return ("pop", e.args[0] if e.args else None)
+        if isinstance(e, ast.Subscript) and isinstance(e.value, ast.Name) and e.value.id in branch_states:
+            return ("item", e.slice)
+        return None
+
+    def single_def(e: ast.expr) -> ast.expr:
+        """a local with exactly one definition stands for that definition (also when the definition has effects, like pop)"""
+        if not isinstance(e, ast.Name):
+            return e
+        defs = [n for n in ast.walk(f.node) if isinstance(n, (ast.Assign, ast.AnnAssign, ast.AugAssign, ast.NamedExpr, ast.For, ast.comprehension))
+                and any(isinstance(t, ast.Name) and t.id == e.id for tt in (n.targets if isinstance(n, ast.Assign) else [n.target]) for t in ast.walk(tt))]
+        if len(defs) == 1 and isinstance(defs[0], ast.Assign) and len(defs[0].targets) == 1 and isinstance(defs[0].targets[0], ast.Name):
+            return defs[0].value
+        return e
+
+    def iterates(binders: dict[str, ast.expr], key: ast.expr, state: str) -> bool:
+        """the key variable is drawn from `state` itself"""
+        if not isinstance(key, ast.Name) or key.id not in binders:
+            return False
+        it = binders[key.id]
+        return bool(norm.any_match(["$s", "$s.keys()", "$s.items()", "list($s)", "tuple($s)", "list($s.keys())", "list($s.items())"], it, {"s": state}))
+
+    def check_value(val: ast.expr, raw: ast.expr, site: Site, conds: list[ast.expr], binders: dict[str, ast.expr], label: str, where: str) -> None:
+        val = single_def(val)
+        if isinstance(val, ast.Tuple):
+            val = ast.Tuple([single_def(e) for e in val.elts], ast.Load())
+        elems = val.elts if isinstance(val, ast.Tuple) else None
+        if elems is None:
+            raise AnalysisError(f"{where}: reported value {ast.unparse(val)[:80]} is not a pair of branch values")
+        raw_elems = raw.elts if isinstance(raw, ast.Tuple) and len(raw.elts) == len(elems) else [None] * len(elems)
+        for i, (el, rel) in enumerate(zip(elems, raw_elems)):
+            src = from_branch(el)
+            key = f"{f.key}:{label}:component{i}"
+            if src is None:
+                if isinstance(el, ast.Name) and el.id in binders:
+                    chk.ok("C07.if-delta", key, where, "component iterates a branch state", nontrivial=False)
+                continue
+            kind, k = src
+            ok_ = False
+            if kind == "pop":
+                alts = [el] + ([rel] if rel is not None else [])
+                for a in alts:
+                    if has_fact(site, ["$e is not None"], {"e": a}) or any(norm.match(T("$e is not None"), c, {"e": a}) is not None for c in conds):
+                        ok_ = True
+                # quantified over the whole pair
+                for fact in site.facts:
+                    if fact.kind != "atom":
+                        continue
+                    q = norm.qnf(fact.expr)
+                    if q is None:
+                        continue
+                    kd, var, dom, filters, body = q
+                    if kd == "all" and not filters and norm.match(T("$v is not None"), body, {"v": var}) is not None:
+                        d = single_def(site.expand(dom))
+                        if isinstance(d, (ast.Tuple, ast.List)):
+                            d = ast.Tuple([single_def(x) for x in d.elts], ast.Load())
+                        if ast.dump(d) == ast.dump(val) or (isinstance(d, (ast.Tuple, ast.List)) and any(ast.dump(x) == ast.dump(el) for x in d.elts)):
+                            ok_ = True
+            else:
+                state = el.value.id  # type: ignore[union-attr]
+                assert k is not None
+                if has_fact(site, ["$k in $s"], {"k": k, "s": state}) or any(norm.match(T("$k in $s"), c, {"k": k, "s": state}) is not None for c in conds):
+                    ok_ = True
+                if iterates(binders, k, state):
+                    ok_ = True
+            chk.result(ok_, "C07.if-delta", key, where,
+                       "a branch value is reported only if that branch still holds one",
+                       f"`{ast.unparse(el)[:80]}` is reported as the state after the if although that branch may have invalidated it "
+                       "(no None test / membership test dominates the store)", site.fact_texts)
+
     n = 0
-    for s in res_stores:
+    # (a) subscript stores into the result
+    for s in [x for x in fl.stmts(ast.Assign) if x.reachable]:
         t = s.node.targets[0]
         if not isinstance(t, ast.Subscript):
             continue
-        n += 1
-        # inside the loop over old_state: must carry the fact that no new val is None
+        binders = {}
+        for l in s.loops:
+            if isinstance(l, ast.For):
+                for nm in ast.walk(l.target):
+                    if isinstance(nm, ast.Name):
+                        binders[nm.id] = l.iter
         in_old_loop = any(isinstance(l, ast.For) and f.param(0) in norm.free_names(l.iter) for l in s.loops)
-        if in_old_loop:
-            okf = any(("is None" in t_ or "is not None" in t_) and ("any(" in t_ or "all(" in t_) for t_ in s.fact_texts) or any(
-                " in " in t_ for t_ in s.fact_texts)
-            chk.result(okf, "C07.if-delta", f"{f.key}:old-keys", s.where(),
-                       "an old key is reported only if neither branch dropped it",
-                       "a key of the old state is reported although one branch invalidated it", s.fact_texts)
-        else:
-            okf = any(" in " in t_ and "not in" not in t_ for t_ in s.fact_texts)
-            chk.result(okf, "C07.if-delta", f"{f.key}:new-keys", s.where(),
-                       "a new key is reported only if present in both branch states",
-                       "a state introduced in only one branch is reported as valid after the if", s.fact_texts)
+        n += 1
+        check_value(s.expand(s.node.value), s.node.value, s, [], binders, "old-keys" if in_old_loop else "new-keys", s.where())
+    # (b) dict comprehensions merged into / returned as the result
+    for s in [x for x in fl.sites if x.reachable and x.node is x.stmt]:
+        for dc in [d for d in ast.walk(s.stmt) if isinstance(d, ast.DictComp)]:
+            binders = {}
+            conds: list[ast.expr] = []
+            for gen in dc.generators:
+                for nm in ast.walk(gen.target):
+                    if isinstance(nm, ast.Name):
+                        binders[nm.id] = gen.iter
+                for c in gen.ifs:
+                    conds += norm.atoms(c, True)
+            n += 1
+            check_value(dc.value, dc.value, s, conds, binders, "new-keys", s.where())
     if n == 0:
         raise AnalysisError(f"{f.where}: no stores to the result dictionary found")
